@@ -1742,6 +1742,15 @@ class Fxp():
 
     # numpy functions dispatch
     def __array_ufunc__(self, ufunc, method, *inputs, **kwargs):
+        if method == '__call__' and not kwargs and ufunc in (np.bitwise_and, np.bitwise_or, np.bitwise_xor, np.invert):
+            # bit level operations act on the word of the fixed-point operand (also with a numpy integer mask on the left: np.int64(m) & x)
+            if ufunc is np.invert:
+                return inputs[0].__invert__()
+            name = {np.bitwise_and: '__and__', np.bitwise_or: '__or__', np.bitwise_xor: '__xor__'}[ufunc]
+            if isinstance(inputs[0], Fxp):
+                return getattr(inputs[0], name)(inputs[1])
+            return getattr(inputs[1], name)(inputs[0])      # (the three operations are commutative: the reflected methods are the same ones)
+
         if method == '__call__':
             if ufunc in _NUMPY_HANDLED_FUNCTIONS:
                 # dispatch function to implemented in fxpmath
